@@ -19,7 +19,7 @@ Correspondence (K), against the Lean model `Model/LowRank.lean` (driver `drv_c10
     matrix is the external kernel (its specification U U' = 1, U diag(e) U' = M is checked at run time), and the model
     computes the packed root (`low_rank_root`, `Float`); the dense matrices denoted by the implementation's and the
     model's packed roots, the retained inverse eigenvalues and the constant are compared with TOL(1e-9 x kappa),
-    kappa = lambda_max / (gap at the cut) resp. lambda_max / lambda_i.  `max_ev` is the value the real
+    kappa = 1 + lambda_max / (gap at the cut) + lambda_max / lambda_min, resp. lambda_max / lambda_i.  `max_ev` is the value the real
     `power_iteration` returns (an external kernel for this property, deterministic).
 
 Search oracle (S), numpy only, no reference to the model:
@@ -364,7 +364,11 @@ def run_impl(task):
                 else:
                     obs = _impl_root(ds, jax, jnp, np, case, task["tol"])
         except Exception as e:  # noqa: BLE001
-            obs = {"exception": type(e).__name__ + ": " + str(e)[:300]}
+            import traceback
+            src = os.path.realpath(kit.repo_src())
+            frames = [f for f in traceback.extract_tb(e.__traceback__) if os.path.realpath(f.filename).startswith(src)]
+            obs = {"exception": type(e).__name__ + ": " + str(e)[:300],
+                   "raised_in": [f"{os.path.basename(f.filename)}:{f.lineno} {f.name}" for f in frames[-2:]]}
         out.append(obs)
     jax.clear_caches()
     return out
@@ -421,13 +425,22 @@ def root_expected(case, A, max_ev, tol):
 
 
 # ----------------------------------------------------------------------------- evaluation
-def _fail_infra(case, obs):
+def _fail_infra(ctx, case, obs, stats=None):
+    """An exception raised inside the implementation on an admissible input means no result was delivered: violation.
+    Anything else is harness trouble."""
+    if obs.get("raised_in"):
+        ctx.evaluated()
+        ctx.cov["search_evaluations"] += 1
+        if stats is not None:
+            stats["violations:exception"] += 1
+        ctx.violation(f"implementation raised {obs['exception']} at {obs['raised_in']} on an admissible {case['kind']} input", {"case": case})
+        return
     raise kit.InfraError(f"case {case['id']}: {obs['exception']}")
 
 
 def eval_pd(ctx, case, obs, rep):
     if "exception" in obs:
-        _fail_infra(case, obs)
+        return _fail_infra(ctx, case, obs)
     for (r, d, pdv, sc), m in zip(obs["grid"], rep):
         ctx.evaluated()
         ok = m.get("precond_dim") == pdv and m.get("should_compress") == sc
@@ -461,7 +474,7 @@ def pack_requests(case, obs):
 
 def eval_pack(ctx, case, obs, reps, stats):
     if "exception" in obs:
-        _fail_infra(case, obs)
+        return _fail_infra(ctx, case, obs, stats)
     V, ev, ie, c, t, hz, Q, Z = mat_pack(case)
     d, r = case["d"], abs(case["rank"])
     ctx.evaluated()
@@ -520,7 +533,7 @@ def apply_request(case, obs):
 def eval_apply(ctx, case, obs, rep, stats):
     import numpy as np
     if "exception" in obs:
-        _fail_infra(case, obs)
+        return _fail_infra(ctx, case, obs, stats)
     g, axes = mat_apply(case)
     shape = case["shape"]
     ctx.evaluated()
@@ -600,7 +613,7 @@ def root_req2(case, rep1, stats):
 def eval_root(ctx, case, obs, rep1, rep2, tol, stats):
     import numpy as np
     if "exception" in obs:
-        _fail_infra(case, obs)
+        return _fail_infra(ctx, case, obs, stats)
     for rep in (rep1, rep2):
         if "error" in rep or "err" in rep:
             raise kit.InfraError(f"driver: {rep} on case {case['id']}")
@@ -613,7 +626,8 @@ def eval_root(ctx, case, obs, rep1, rep2, tol, stats):
     Am[n:, :] = 0.0
     Am[:, n:] = 0.0
     X = root_expected(case, Am, kit.hex_f64(obs["max_ev"]), tol)
-    kappa = 1.0 + X["lmax"] / max(X["gap"], 1e-300)
+    # conditioning: rotation of the retained subspace (gap at the cut) and relative accuracy of the smallest eigenvalue
+    kappa = 1.0 + X["lmax"] / max(X["gap"], 1e-300) + X["lmax"] / X["lmin"]
     tolD = 1e-9 * X["fmax"] * kappa
     tolc = 1e-9 * X["fmax"] * (X["lmax"] / X["lmin"])
     P = unhx(obs["P"], obs["P_shape"])
@@ -683,13 +697,12 @@ def execute(ctx, cases, stats, tol):
             tasks.append({"cases": ch, "tol": tol})
     results = kit.parallel_map(run_impl, tasks, nproc=14)
     pairs = [(c, o) for t, res in zip(tasks, results) for c, o in zip(t["cases"], res)]
-    for c, o in pairs:
-        if "exception" in o:
-            _fail_infra(c, o)
     # driver batch 1
     reqs, spans = [], []
     for c, o in pairs:
-        if c["kind"] == "pd":
+        if "exception" in o:
+            rq = []
+        elif c["kind"] == "pd":
             rq = [{"op": "precond_dim", "rank": r, "dim": d} for r, d, _a, _b in o["grid"]]
         elif c["kind"] == "pack":
             rq = pack_requests(c, o)
@@ -701,7 +714,7 @@ def execute(ctx, cases, stats, tol):
         reqs += rq
     replies = ctx.driver(reqs)
     # driver batch 2 (roots, after the external eigh)
-    roots = [(i, c) for i, (c, o) in enumerate(pairs) if c["kind"] == "root"]
+    roots = [(i, c) for i, (c, o) in enumerate(pairs) if c["kind"] == "root" and "exception" not in o]
     reqs2 = [root_req2(c, replies[spans[i][0]], stats) for i, c in roots]
     rep2 = dict(zip([i for i, _ in roots], ctx.driver(reqs2))) if reqs2 else {}
     for i, (c, o) in enumerate(pairs):
@@ -709,7 +722,9 @@ def execute(ctx, cases, stats, tol):
         for rp in rs:
             if "error" in rp:
                 raise kit.InfraError(f"driver: {rp['error']} on case {c['id']}")
-        if c["kind"] == "pd":
+        if "exception" in o:
+            _fail_infra(ctx, c, o, stats)
+        elif c["kind"] == "pd":
             eval_pd(ctx, c, o, rs)
         elif c["kind"] == "pack":
             eval_pack(ctx, c, o, rs, stats)
@@ -785,7 +800,7 @@ def run(ctx):
     ctx.assumptions += [
         "x64, float64 inputs, direct calls (observe_at of the property); a fraction of application and root cases under jit (padding_start traced)",
         "EXACT: bit patterns for pack/unpack; EXACT-DYADIC: application on small integers x powers of two against the Rat model",
-        "TOL: application 1e-12 x (max|g| x product of 1-norm bounds of the applied operators); root 1e-9 x f_max x (1 + lambda_max/gap at the cut)",
+        "TOL: application 1e-12 x (max|g| x product of 1-norm bounds of the applied operators); root 1e-9 x f_max x (1 + lambda_max/gap at the cut + lambda_max/lambda_min of the regularized statistics)",
         "external kernels: numpy eigh (specification re-checked at run time, residual <= 1e-10), the real power_iteration for max_ev, libm pow",
         "negative compression_rank is always called with padding_start (as the optimizer does); `d - None` raises for padding_start=None",
         "statistics have a spectral gap at the cut (relative gap >= ~1e-3); without it the retained subspace is not numerically defined",
